@@ -22,12 +22,49 @@ impl Out {
     pub fn stat(&mut self, k: &str, v: serde_json::Value) { self.stats.insert(k.to_string(), v); }
 }
 
+
+/// Crash isolation for components whose implementation may corrupt memory or abort: case blocks are
+/// executed in a child process (this binary, `<comp>-child`), which prints `OB <observation>` after
+/// every call and `DONE` after a block; a dead child yields `<id> ABORT` for the call in flight.
+pub struct Isolated { comp: String, child: Option<(std::process::Child, std::io::BufReader<std::process::ChildStdout>)> }
+impl Isolated {
+    pub fn new(comp: &str) -> Isolated { Isolated { comp: comp.to_string(), child: None } }
+    pub fn run_block(&mut self, id: usize, lines: &[String], expected: usize) -> Vec<String> {
+        use std::io::{BufRead, Write};
+        if self.child.is_none() {
+            let exe = std::env::current_exe().unwrap();
+            let mut p = std::process::Command::new(exe).arg(format!("{}-child", self.comp))
+                .stdin(std::process::Stdio::piped()).stdout(std::process::Stdio::piped()).stderr(std::process::Stdio::null()).spawn().unwrap();
+            let rd = std::io::BufReader::new(p.stdout.take().unwrap());
+            self.child = Some((p, rd));
+        }
+        let mut obs = vec![];
+        let (p, rd) = self.child.as_mut().unwrap();
+        let mut dead = false;
+        { let si = p.stdin.as_mut().unwrap(); for l in lines { if writeln!(si, "{}", l).is_err() { dead = true; break; } } let _ = si.flush(); }
+        while !dead {
+            let mut l = String::new();
+            match rd.read_line(&mut l) {
+                Ok(0) | Err(_) => dead = true,
+                Ok(_) => { let l = l.trim_end(); if l == "DONE" { break; } else if let Some(o) = l.strip_prefix("OB ") { obs.push(o.to_string()); } }
+            }
+        }
+        if dead {
+            if obs.len() < expected { obs.push(format!("{} ABORT", id)); }
+            while obs.len() < expected { obs.push(format!("{} SKIPPED", id)); }
+            if let Some((mut p, _)) = self.child.take() { let _ = p.kill(); let _ = p.wait(); }
+        }
+        obs
+    }
+}
+
 pub struct Args { pub seed: u64, pub tier: String, pub out: String, pub replay: Option<String>, pub n: Option<u64>, pub corpus: Option<String> }
 
 fn main() {
     let argv: Vec<String> = std::env::args().collect();
     if argv.len() < 2 { eprintln!("usage: sfv_harness <component> --seed N --tier quick|thorough --out DIR [--replay FILE]"); std::process::exit(2); }
     let comp = argv[1].clone();
+    if comp == "c05-child" { std::panic::set_hook(Box::new(|_| {})); c05::child_main(); return; }
     if comp == "reader-child" { std::panic::set_hook(Box::new(|_| {})); c01::child_main(); return; }
     let mut a = Args { seed: 1, tier: "quick".into(), out: ".".into(), replay: None, n: None, corpus: None };
     let mut i = 2;
